@@ -122,6 +122,11 @@ func tagsOf(vs ...*model.V) []string {
 		}
 		v.Walk(func(x *model.V) {
 			if x.K == model.KTup {
+				if pinnedSugarLiteral(x.Names, x.Vals) {
+					// written as a literal this tuple panics by design (the repository's
+					// tests pin it: C10 finding panic@rel.newSugarTupleStrict)
+					add("pinned-sugar-literal")
+				}
 				if a, ok := x.SugarAttr(); ok && a != "@value" {
 					at, _ := x.Get("@")
 					val, _ := x.Get(a)
